@@ -259,6 +259,10 @@ inductive MExpr where
       `t` of shape `[(c, columns), (r, rows)]` holding the ids `0..rows·columns` (its
       `data_layout` is `ColumnMajor`; cell `(i, j)` is the tensor's element `j·rows + i`) -/
   | leafCM (rows columns : Nat)
+  /-- the part at grid position `(kr, kc)` of `Matrix::partition(rp, cp)` of a `rows × columns`
+      matrix holding the ids: `parts[kr * (cp.len() + 1) + kc]` (the parts come in row-major
+      grid order), a `MatrixPart` -/
+  | part (rows columns : Nat) (rp cp : List Nat) (kr kc : Nat)
   /-- `MatrixRange::from(e, rows, columns)` -/
   | range (e : MExpr) (rows columns : IndexRange)
   /-- `MatrixReverse::from(e, Reverse { rows, columns })` -/
@@ -330,12 +334,29 @@ def cmUget (rows columns : Nat) (row column : Nat) : Outcome Nat :=
     | .panic k => .panic k
     | .ok i => if i < rows * columns then .ok i else .panic .hook
 
+/-- `MatrixPart::get_reference_unchecked`:
+    `self.data.get_unchecked(row).get_unchecked(column)` -/
+def MatrixPart.uget (p : MatrixPart) (row column : Nat) : Outcome Nat :=
+  match p.data[row]? with
+  | none => .panic .hook
+  | some slice =>
+    match slice[column]? with
+    | none => .panic .hook
+    | some o => .ok o
+
 def MExpr.eval (A : Arith) : MExpr → Outcome (Except (Shape Bool) MViewU)
   | .leaf rows columns =>
     let m : MatrixMeta := ⟨rows * columns, rows, columns⟩
     .ok (.ok ⟨MView.ofMatrix m, m.uget⟩)
   | .leafCM rows columns =>
     .ok (.ok ⟨⟨rows, columns, cmGet rows columns⟩, cmUget rows columns⟩)
+  | .part rows columns rp cp kr kc =>
+    match partition ⟨rows * columns, rows, columns⟩ rp cp with
+    | .panic k => .panic k
+    | .ok parts =>
+      match idxC parts (kr * (cp.length + 1) + kc) with
+      | .panic k => .panic k
+      | .ok p => .ok (.ok ⟨MView.ofPart p, p.uget⟩)
   | .range e rows columns =>
     match e.eval A with
     | .panic k => .panic k
@@ -383,12 +404,13 @@ inductive TLayout2 where
   | linear (rowsFirst : Bool) | nonLinear | other
   deriving DecidableEq, Repr
 
-/-- `data_layout()` of each adaptor: a `Matrix` is row-major, a range and a map pass their
+/-- `data_layout()` of each adaptor: a `Matrix` and a `MatrixPart` are row-major, a range and a map pass their
     source's layout on, a reversal answers `Other`, `TensorRefMatrix` translates to the tensor
     vocabulary and `MatrixRefTensor` back (src/interop/mod.rs:158-172, 263-288) -/
 def MExpr.layout : MExpr → MLayout
   | .leaf _ _ => .rowMajor
   | .leafCM _ _ => .columnMajor
+  | .part _ _ _ _ _ _ => .rowMajor
   | .range e _ _ => e.layout
   | .reverse _ _ _ => .other
   | .map e => e.layout
